@@ -32,6 +32,8 @@ FP = {
     "onnxscript/rewriter/_ir_utils.py": ["same_shape", "same_dim", "get_dim"],
     "onnxscript/rewriter/rules/common/_remove_expand_before_binary_op.py": [
         "_compute_broadcast_dim", "_compute_broadcast_shape", "_check_dims_sufficient", "_check_expand_removable",
+        "_ExpandFirstInput.pattern", "_ExpandFirstInput.check", "_ExpandFirstInput.rewrite",
+        "_ExpandSecondInput.pattern", "_ExpandSecondInput.check", "_ExpandSecondInput.rewrite",
     ],
     "onnxscript/rewriter/rules/common/_materialize_reshape_shape.py": [
         "MaterializeReshapeShape.check", "MaterializeReshapeShape.rewrite",
@@ -126,6 +128,62 @@ def search_helper_counterexample(kind, args, real_answer):
             r = search_helper_counterexample("expandRemovable", (x, y, None, e, None), "ok2")
             if r:
                 return r
+        if kind == "ruleExpandBinary" and ":fired" in real_answer:
+            # the rule fired where the model (given the roles the code is supposed to pass) refuses, or it
+            # rebuilt the node with other operands: look for shapes on which the rewritten op differs
+            x, y, const, eo, bo = args
+            if x is None or y is None:
+                return None
+            op, side, _, ins = real_answer.split(":", 3)
+            want = "xin,yin" if side == "0" else "yin,xin"
+            if ins != want:
+                return {"binding": {}, "unnamed": [], "why": f"{op} rebuilt with operands ({ins}) instead of ({want})"}
+            for sig, unn in _bindings_for([x, y], limit=400):
+                it = iter(unn)
+                lx, ly = _conc(x, sig, it), _conc(y, sig, it)
+                if const is not None:
+                    targets = [const]
+                else:
+                    targets = [[2] + lx, [5] + lx, [3 if d == 1 else d for d in lx], [2, 3] + lx, np_bcast(lx, ly) or lx]
+                    if eo is not None:
+                        for kv in VALS:
+                            targets.append([sig.get(d, kv) if isinstance(d, str) else (kv if d is None else d) for d in eo])
+                for le in targets:
+                    lE = np_bcast(lx, le)
+                    if lE is None:
+                        continue
+                    sg = dict(sig)
+                    if eo is not None:
+                        # symbols that only occur in the annotation (e.g. K) are bound by the run-time target
+                        if len(eo) != len(lE):
+                            continue
+                        okb = True
+                        for d, v in zip(eo, lE):
+                            if isinstance(d, str):
+                                if sg.setdefault(d, v) != v:
+                                    okb = False
+                            elif d is not None and d != v:
+                                okb = False
+                        if not okb:
+                            continue
+                    o1 = np_bcast(lE, ly)
+                    if o1 is None:
+                        continue
+                    if bo is not None:
+                        if len(bo) != len(o1):
+                            continue
+                        okb = True
+                        for d, v in zip(bo, o1):
+                            if isinstance(d, str):
+                                if sg.setdefault(d, v) != v:
+                                    okb = False
+                            elif d is not None and d != v:
+                                okb = False
+                        if not okb:
+                            continue
+                    if o1 != np_bcast(lx, ly):
+                        return {"binding": sg, "unnamed": unn, "expand_input": lx, "other": ly, "expand_target": le,
+                                "why": f"{op} with the Expand on operand {side}: original result shape {o1}, rewritten {np_bcast(lx, ly)}"}
         if kind == "expandRemovable" and real_answer in ("ok1", "ok2", "ok3"):
             x, y, const, eo, bo = args
             if pred_d23(real_answer, x, y, eo, bo) or pred_d24(real_answer, x, y, const, eo):
@@ -213,6 +271,10 @@ def run_helpers(run, drv, R, n, stats, problems):
             mm = m + " az1"
         if kind == "flatten" and m != "N":
             mm = m + " az0"
+        if kind == "ruleExpandBinary":
+            mm = H.rule_expected(m, r) if r.count(":") >= 2 else m
+            stats["br_ruleExpandBinary:op:" + r.split(":")[0]] += 1
+            stats["br_ruleExpandBinary:verdict:" + m.split(":")[0] + ":side" + (r.split(":")[1] if r.count(":") >= 2 else "?")] += 1
         stats["helper_cases"] += 1
         stats["k_" + kind] += 1
         if r != mm:
@@ -315,6 +377,13 @@ def optimize_variants(R, orig, has_expand_binary, drv, stats):
                 info = {"patterns": expand_patterns(R, m, drv, stats)}
                 cnt = R.reb.expand_before_binary_op_rules.apply_to_model(m)
                 info["fired"] = cnt
+                pats = info["patterns"]
+                if len(pats) == 1 and sum(1 for n in src.graph.node if n.op_type == "Expand") == 1:
+                    # the rule objects (role wiring per side) against the Lean verdict for the supposed roles
+                    want = 1 if pats[0]["model"] in ("ok1", "ok2", "ok3") else 0
+                    if cnt != want:
+                        info["rule_tie_break"] = {"kind": "expandRemovable(rule on model graph)", "line": pats[0]["line"],
+                                                  "impl": f"fired={cnt}", "model": pats[0]["model"]}
                 out.append((variant, ir.to_proto(m).SerializeToString(), info))
             except Exception as e:
                 out.append((variant, "RAISED:" + type(e).__name__ + ":" + str(e)[:200], {}))
@@ -349,7 +418,8 @@ def expand_patterns(R, m, drv, stats):
     return pats
 
 
-def classify_model_failure(b_meta, variant, info, opt_bytes, binding, concrete_inputs, bad, out_names, opt_err="", orig=None):
+def classify_model_failure(b_meta, variant, info, opt_bytes, binding, concrete_inputs, bad, out_names, opt_err="", orig=None,
+                           zero_seen=False):
     """Known-finding id for a whole-model mismatch, or None."""
     import onnx
 
@@ -373,7 +443,7 @@ def classify_model_failure(b_meta, variant, info, opt_bytes, binding, concrete_i
                     return "C09-D16c"
         # D6: Flatten became Reshape and a dim of size 0 is around
         if b_meta.get("flatten") and ops.count("Flatten") < len(b_meta["flatten"]) and "Reshape" in ops:
-            zero = any(0 in shp for shp in concrete_inputs.values())
+            zero = any(0 in shp for shp in concrete_inputs.values()) or zero_seen
             if zero:
                 return "C09-D6"
         # D5: only outputs of Abs(Shape-piece + negative constant) differ
@@ -443,8 +513,9 @@ def run_models(run, drv, R, n_models, n_bind, stats, failures, tie_problems):
         sessions = []
         for variant, pb, info in variants:
             stats["variants"] += 1
+            if info.get("rule_tie_break"):
+                tie_problems.append(info["rule_tie_break"])
             for p in info.get("patterns", []):
-                exp = {True: ("ok1", "ok2", "ok3")}.get(p["real_ok"], None)
                 if (p["model"] in ("ok1", "ok2", "ok3")) != p["real_ok"]:
                     tie_problems.append({"kind": "expandRemovable(model graph)", "line": p["line"], "impl": str(p["real_ok"]), "model": p["model"]})
             if isinstance(pb, str):
@@ -476,7 +547,9 @@ def run_models(run, drv, R, n_models, n_bind, stats, failures, tie_problems):
                     continue
                 conc = {k: list(v.shape) for k, v in feeds.items()}
                 fid = classify_model_failure(b.meta, variant, info, pb, bnd, conc, bad, b.outputs,
-                                             opt_err=rr if isinstance(rr, str) else "", orig=orig)
+                                             opt_err=rr if isinstance(rr, str) else "", orig=orig,
+                                             zero_seen=(any(0 in o.shape for o in ro) if not isinstance(ro, str) else False)
+                                             or any(v.dtype == np.int64 and (v == 0).any() for k, v in feeds.items() if k in b.shape_feeds))
                 what = (f"{variant}: original " + ("rejects" if isinstance(ro, str) else "accepts") + ", optimized "
                         + ("rejects" if isinstance(rr, str) else "accepts") + f"; differing outputs {bad}; shapes {conc}"
                         + (f"; opt error {rr[:120]}" if isinstance(rr, str) else "")
@@ -664,6 +737,8 @@ def main(run: core.Run) -> None:
         found = None
         for p in tie_problems:
             kind, args = parse_line_args(p["line"])
+            if p["kind"] == "ruleExpandBinary":
+                kind = "ruleExpandBinary"
             if args is None:
                 continue
             cx = search_helper_counterexample(kind, args, p["impl"])
